@@ -125,7 +125,7 @@ def run(tier, seed, jobs) -> Result:
             if sc["name"] in ("expunge|fetch3", "expunge|store3", "expunge|search", "expunge|uidfetch", "close|fetch2", "store|fetchbody",
                               "store|store", "fetchbody|search", "append|fetchflags", "append|append", "select|select-inactive"):
                 b = 3
-        r = sched.explore(sc, b, jobs, seed, max_exec=20000 if tier == "quick" else 400000)
+        r = sched.explore(sc, b, jobs, seed, max_exec=20000 if tier == "quick" else 80000)
         res.failures.extend(r["failures"])
         tot_exec += r["executions"]
         tot_steps += r["steps"]
